@@ -75,7 +75,12 @@ func TestTail(t *testing.T) {
 				opts = append(opts, hsync.WithTrustingPeriod(trusting))
 			}
 			if sfh > 0 {
-				opts = append(opts, hsync.WithSyncFromHeight(uint64(sfh)))
+				if h := full.At(uint64(sfh)); mbt.Bool(in, "byHash") && h != nil {
+					// replay-only variant: the same starting point given by hash (SyncFromHash has priority over the height)
+					opts = append(opts, hsync.WithSyncFromHash(h.Hash().String()))
+				} else {
+					opts = append(opts, hsync.WithSyncFromHeight(uint64(sfh)))
+				}
 			}
 			n := newNode(t, netChain, 0, 4, opts...)
 			_ = full
